@@ -1,7 +1,7 @@
 import Hive.Model.SeqConc
 import Hive.Proofs.Seq
 /-! Facts about the *sequential* machine `Hive.Seq.step` that the concurrent theorems lift through
-the refinement: the frontier advances by exactly one per `Next` and not at all per `Release`
+the refinement: the frontier advances by exactly one per successful `Next` and not at all per `Release` or exhausted `Next`
 (contiguity), and a crash at any store-operation boundary moves it by at most one interval. -/
 namespace Hive.Seq.Conc
 open Hive.Seq
@@ -22,21 +22,28 @@ theorem frontier_bounds {t : St} (h : Inv t) :
       have := h.nolease (by intro o' ho'; rw [hobj] at ho'; cases ho'; exact hl)
       simp only [hl, Bool.false_eq_true, if_false]; exact ⟨h.below_mark, this⟩
 
-theorem next_out {s : St} {o : Obj} (hobj : s.obj = some o) : (step s .next).2 = .num (frontier s) := by
-  cases hl : hasLease o <;> simp [step, hobj, hl, frontier, update]
+/-- A `Next` that needs a store access at the end of the number space (`ErrSequenceExhausted`). -/
+def exhausted (s : St) (o : Obj) : Bool := !hasLease o && lease (mark s) o.interval == 0
 
 theorem next_obj {s : St} {o : Obj} (hobj : s.obj = some o) : ∃ o', (step s .next).1.obj = some o' := by
-  cases hl : hasLease o <;> simp [step, hobj, hl, update]
+  cases hl : hasLease o with
+  | true => simp [step, hobj, hl]
+  | false => by_cases hz : lease (mark s) o.interval = 0 <;> simp [step, hobj, hl, hz, update]
 
-theorem frontier_next {s : St} {o : Obj} (h : Inv s) (hobj : s.obj = some o) :
-    frontier (step s .next).1 = frontier s + 1 := by
+/-- `Next` either answers the frontier and moves it by exactly one, or (exhausted) answers an error,
+hands out nothing and leaves the frontier where it is. -/
+theorem next_cases {s : St} {o : Obj} (h : Inv s) (hobj : s.obj = some o) :
+    ((step s .next).2 = .num (frontier s) ∧ frontier (step s .next).1 = frontier s + 1) ∨
+    ((step s .next).2 = .err ∧ frontier (step s .next).1 = frontier s) := by
   have hip := h.ipos o hobj
   cases hl : hasLease o with
   | true =>
+    left
     have hl' : o.next < o.reserved := by simpa [hasLease] using hl
     obtain ⟨_, h2, _, _⟩ := h.lease o hobj hl
     have e : (step s .next).1 = serve s o := by simp [step, hobj, hl, serve]
     have hf : frontier s = o.next := by simp [frontier, hobj, hl]
+    refine ⟨by simp [step, hobj, hl, hf], ?_⟩
     rw [e, hf]
     show (if hasLease { o with next := o.next + 1 } = true then o.next + 1 else mark s) = o.next + 1
     split
@@ -45,16 +52,26 @@ theorem frontier_next {s : St} {o : Obj} (h : Inv s) (hobj : s.obj = some o) :
       have : ¬ (o.next + 1 < o.reserved) := by simpa [hasLease] using hc
       omega
   | false =>
-    have e : (step s .next).1 = refill s o := by simp [step, hobj, hl, refill, update]
     have hf : frontier s = mark s := by simp [frontier, hobj, hl]
-    rw [e, hf]
-    show (if hasLease { interval := o.interval, next := mark s + 1, reserved := mark s + o.interval } = true
-      then mark s + 1 else mark s + o.interval) = mark s + 1
-    split
-    · rfl
-    · rename_i hc
-      have : ¬ (mark s + 1 < mark s + o.interval) := by simpa [hasLease] using hc
-      omega
+    by_cases hz : lease (mark s) o.interval = 0
+    · right
+      have hres := h.res_le o hobj
+      have e : (step s .next).1 = { s with obj := some { o with next := mark s } } := by simp [step, hobj, hl, hz]
+      refine ⟨by simp [step, hobj, hl, hz], ?_⟩
+      rw [e, hf]
+      show (if hasLease { o with next := mark s } = true then mark s else mark s) = mark s
+      split <;> rfl
+    · left
+      have e : (step s .next).1 = refill s o := by simp [step, hobj, hl, hz, refill, update]
+      refine ⟨by simp [step, hobj, hl, hz, hf, update], ?_⟩
+      rw [e, hf]
+      show (if hasLease ⟨o.interval, mark s + 1, mark s + lease (mark s) o.interval⟩ = true
+        then mark s + 1 else mark s + lease (mark s) o.interval) = mark s + 1
+      split
+      · rfl
+      · rename_i hc
+        have : ¬ (mark s + 1 < mark s + lease (mark s) o.interval) := by simpa [hasLease] using hc
+        omega
 
 theorem release_out {s : St} {o : Obj} (hobj : s.obj = some o) :
     (step s .release).2 = .ok ∧ (∃ o', (step s .release).1.obj = some o') ∧
@@ -78,9 +95,13 @@ theorem contiguous (ops : List Op) (hops : ∀ op ∈ ops, op = .next ∨ op = .
     · obtain ⟨o', ho'⟩ := next_obj hobj
       have hi' : Inv (step s .next).1 := inv_step' h trivial
       have := ih hops' hi' ho'
-      rw [frontier_next h hobj] at this
-      simp only [run, next_out hobj, outNums, List.length_cons, List.range'_succ]
-      rw [← this]
+      rcases next_cases h hobj with ⟨hout, hfr⟩ | ⟨hout, hfr⟩
+      · rw [hfr] at this
+        simp only [run, hout, outNums, List.length_cons, List.range'_succ]
+        rw [← this]
+      · rw [hfr] at this
+        simp only [run, hout, outNums]
+        exact this
     · obtain ⟨hout, ⟨o', ho'⟩, hfr, _⟩ := release_out hobj
       have hi' : Inv (step s .release).1 := inv_step' h trivial
       have := ih hops' hi' ho'
@@ -99,6 +120,10 @@ theorem crash_frontier {s : St} {o : Obj} (h : Inv s) (hobj : s.obj = some o) (p
     have h2' : o.reserved = s.store.getD 0 := h2
     cases pt <;> simp [step, hobj, hl, frontier, mark, abandon_store] <;> omega
   | false =>
-    cases pt <;> simp [step, hobj, hl, frontier, mark, abandon_store]
+    have hle := lease_le (s.store.getD 0) o.interval
+    by_cases hz : lease (s.store.getD 0) o.interval = 0
+    · cases pt <;> simp [step, hobj, hl, frontier, mark, abandon_store, hz]
+    · cases pt <;> simp [step, hobj, hl, frontier, mark, abandon_store, hz]
+      exact hle
 
 end Hive.Seq.Conc
